@@ -601,6 +601,69 @@ def implied_remaining(cfg, input_states):
   return out
 
 
+DEFAULT_LEVEL = (0, 1, 0)
+
+
+def state_shape(state, strip_default_root_levels=False):
+  """Plain structure of a captured state (a ShardConfig, an _IteratorState, the
+  dict / list of those that a chained / multiplexed iterator returns).
+
+  With strip_default_root_levels the ShardConfig(0, 1, 0) levels at the ROOT end of
+  every recorded parent chain are dropped (all but the last level): two states that
+  only differ in how many of those levels they carry get the same shape.
+  """
+  if type(state).__name__ == 'ShardConfig':
+    chain = _chain_of(state)
+    if strip_default_root_levels:
+      while len(chain) > 1 and chain[0] == DEFAULT_LEVEL:
+        chain = chain[1:]
+    return ('pos', tuple(chain))
+  if hasattr(state, 'input_states'):
+    agg = state.agg_state
+    agg = None if agg is None else sorted((repr(k), repr(v)) for k, v in dict(agg).items())
+    return ('it', [state_shape(s, strip_default_root_levels) for s in state.input_states], agg)
+  if isinstance(state, dict):
+    return ('dict', [(str(k), state_shape(v, strip_default_root_levels))
+                     for k, v in state.items()])
+  if isinstance(state, (list, tuple)):
+    return ('list', [state_shape(v, strip_default_root_levels) for v in state])
+  return ('other', repr(state))
+
+
+def strip_shape(shape):
+  """state_shape(state, True) computed from state_shape(state)."""
+  tag = shape[0]
+  if tag == 'pos':
+    chain = shape[1]
+    while len(chain) > 1 and chain[0] == DEFAULT_LEVEL:
+      chain = chain[1:]
+    return ('pos', chain)
+  if tag == 'it':
+    return ('it', [strip_shape(x) for x in shape[1]], shape[2])
+  if tag == 'dict':
+    return ('dict', [(k, strip_shape(v)) for k, v in shape[1]])
+  if tag == 'list':
+    return ('list', [strip_shape(v) for v in shape[1]])
+  return shape
+
+
+def state_depth(state):
+  """Longest recorded parent chain among the source positions of a state."""
+  shape = state_shape(state)
+  best = 0
+
+  def walk(node):
+    nonlocal best
+    if isinstance(node, tuple) and node and node[0] == 'pos':
+      best = max(best, len(node[1]))
+    elif isinstance(node, (tuple, list)):
+      for x in node:
+        walk(x)
+
+  walk(shape)
+  return best
+
+
 def first_stage_input_states(state):
   """Source positions that the restore of the LAST stage will really use.
 
